@@ -31,7 +31,8 @@ def main():
         patch = os.path.join(d, "patch.diff")
         r = subprocess.run(["git", "-C", REPO, "apply", patch])
         if r.returncode != 0:
-            print(mid, "patch does not apply")
+            # written against an earlier base (before a `fix:` commit rewrote the function): the recorded outcome stands
+            print(mid, "patch does not apply to this tree (kept: %s)" % json.load(open(os.path.join(d, "meta.json"))).get("detected_by") if os.path.exists(os.path.join(d, "meta.json")) else "patch does not apply")
             continue
         det = {}
         try:
